@@ -107,6 +107,35 @@ def r05_3(ctx, rep):
                 for t in node.targets:
                     if isinstance(t, ast.Name):
                         aliases.add(t.id)
+        # parts of the caller's tree: names bound from an attribute / subscript / iteration rooted in it
+        def rooted(e):
+            while isinstance(e, (ast.Attribute, ast.Subscript, ast.Call)):
+                e = e.func if isinstance(e, ast.Call) else e.value
+            return isinstance(e, ast.Name) and e.id in aliases | parts
+        parts = set()
+        changed = True
+        while changed:
+            changed = False
+            for node in walk_local(fn):
+                tgt = None
+                if isinstance(node, ast.Assign) and isinstance(node.value, (ast.Attribute, ast.Subscript, ast.Call)) and rooted(node.value) \
+                        and not (isinstance(node.value, ast.Call) and (call_name(node.value) or "") in ALLOWED):
+                    tgt = node.targets
+                elif isinstance(node, (ast.For, ast.comprehension)) and rooted(node.iter):
+                    tgt = [node.target]
+                for t in tgt or []:
+                    for nm in ast.walk(t):
+                        if isinstance(nm, ast.Name) and nm.id not in parts and nm.id not in aliases:
+                            parts.add(nm.id)
+                            changed = True
+        READ_ONLY = {"len", "isinstance", "str", "repr", "print", "sorted", "list", "tuple", "set", "dict", "enumerate", "zip", "iter", "next", "id", "type", "hasattr", "getattr",
+                     "any", "all", "bool", "format"}
+        for node in walk_local(fn):
+            if isinstance(node, ast.Call):
+                handed = [a for a in list(node.args) + [k.value for k in node.keywords] if isinstance(a, ast.Name) and a.id in parts]
+                cn = call_name(node) or norm(node.func)
+                if handed and cn not in ALLOWED and cn.split(".")[-1] not in READ_ONLY and not cn.endswith(".to_json") and not cn.startswith("log."):
+                    bad.append("part of the tree (%s) passed to %s" % (handed[0].id, cn))
         for node in walk_local(fn):
             if isinstance(node, (ast.Assign, ast.AugAssign, ast.Delete)):
                 ts = node.targets if isinstance(node, (ast.Assign, ast.Delete)) else [node.target]
